@@ -419,6 +419,79 @@ class DefaultNs(Part):
         return None
 
 
+# (language, default prefix, statement attribute, what the element shows)
+CASE_TWIN_STMTS = [
+    (0, "tal", "content", "'x'", "x"),
+    (0, "tal", "define", "v 1", "y"),
+    (1, "metal", "define-macro", "m", "y"),
+    (2, "i18n", "translate", "", "y"),
+    (2, "i18n", "domain", "d", "y"),
+]
+
+
+class CaseTwins(Part):
+    """XML names are case sensitive: on one tag, an attribute (or prefix
+    declaration) of a template language and a FOREIGN one whose name differs
+    from it only by case are two things - the first is executed and
+    dropped, the second is kept as written."""
+    name = "casetwins"
+    examples = {"quick": 150, "thorough": 2000}
+
+    def strategy(self, tier):
+        return st.fixed_dictionaries({
+            "stmt": st.integers(0, len(CASE_TWIN_STMTS) - 1),
+            # which of the two spellings belongs to the template language
+            "language_upper": st.booleans(),
+            # where the two prefixes are declared
+            "decl": st.sampled_from(["same_tag", "parent", "mixed"]),
+            "order": st.booleans(),
+            "extra": st.sampled_from(["", ' class="c"', ' Class="C" class="c"']),
+        })
+
+    def nontrivial(self, case):
+        return True
+
+    def labels(self, case):
+        yield "decl_" + case["decl"]
+
+    def build(self, case):
+        li, prefix, name, value, shown = CASE_TWIN_STMTS[case["stmt"]]
+        uri = TEMPLATE_URIS[li]
+        lang, foreign = (prefix.upper(), prefix) if case["language_upper"] \
+            else (prefix, prefix.upper())
+        d_lang = ' xmlns:%s="%s"' % (lang, uri)
+        d_for = ' xmlns:%s="urn:foreign"' % foreign
+        a_lang = ' %s:%s="%s"' % (lang, name, value)
+        a_for = ' %s:%s="keep"' % (foreign, name)
+        attrs = (a_lang + a_for) if case["order"] else (a_for + a_lang)
+        decls = (d_lang + d_for) if case["order"] else (d_for + d_lang)
+        if case["decl"] == "same_tag":
+            src = "<div><p%s%s%s>y</p></div>" % (decls, attrs, case["extra"])
+            out = "<div><p%s%s%s>%s</p></div>" % (d_for, a_for,
+                                                  case["extra"], shown)
+        elif case["decl"] == "parent":
+            src = "<div%s><p%s%s>y</p></div>" % (decls, attrs, case["extra"])
+            out = "<div%s><p%s%s>%s</p></div>" % (d_for, a_for,
+                                                  case["extra"], shown)
+        else:
+            src = "<div%s><p%s%s%s>y</p></div>" % (d_for, d_lang, attrs,
+                                                   case["extra"])
+            out = "<div%s><p%s%s>%s</p></div>" % (d_for, a_for,
+                                                  case["extra"], shown)
+        return src, out
+
+    def sample(self, case):
+        return {"source": self.build(case)[0]}
+
+    def oracle(self, case):
+        src, want = self.build(case)
+        got = render(src, {}, {})
+        if got != ("out", want):
+            return Mismatch("casetwins:differs", {
+                "source": src, "got": got, "expected": want})
+        return None
+
+
 CHECK = Check(
     "C18", "exploration",
     rule=("generated templates (TAL statements, tal:-namespace elements with "
@@ -429,7 +502,7 @@ CHECK = Check(
           "data- attributes for a random subset of each element's statements, "
           "default with the data option on); non-trivial = an element with "
           ">= 2 statements and a foreign attribute present; distinct by sha1"),
-    parts=[Spelling(), DataOff(), NsScope(), DefaultNs()],
+    parts=[Spelling(), DataOff(), NsScope(), DefaultNs(), CaseTwins()],
     assumptions=[
         "only the TAL namespace is re-spelled here; METAL and I18N "
         "re-spellings are part of C09 / C10",
